@@ -219,6 +219,14 @@ func RunScenarios(r *report.Run, scen []Scenario, opt Options) {
 					r.Violation(fmt.Sprintf("%s|config=%s|oracle=boot-from-genesis-fails", opt.Prop, sc.Cfg.Name), msg, ReplayCase{Scenario: sc.Cfg.Name, Choices: c.Choices()})
 					return
 				}
+				if re, ok := p.(RestartError); ok {
+					msg := re.What
+					if i := strings.IndexByte(msg, '\n'); i > 0 {
+						msg = msg[:i]
+					}
+					r.Violation(fmt.Sprintf("%s|config=%s|oracle=node-cannot-restart", opt.Prop, sc.Cfg.Name), fmt.Sprintf("correct node %d cannot be restarted on its own files: %s", re.Node, msg), ReplayCase{Scenario: sc.Cfg.Name, Choices: c.Choices()})
+					return
+				}
 				r.Violation(fmt.Sprintf("%s|config=%s|oracle=harness-panic", opt.Prop, sc.Cfg.Name), fmt.Sprintf("harness panicked: %v", p),
 					ReplayCase{Scenario: sc.Cfg.Name, Choices: c.Choices()})
 			}
